@@ -184,4 +184,15 @@ var table = []Control{
 		Old: "\t\t\ttkp(TTRep, \"...\", start)\n\t\t\tpos++\n", New: "\t\t\ttkp(TTRep, \"...\", start)\n\t\t\tpos++\n\t\t\tif pos < eof && usage[pos] == '.' {\n\t\t\t\tpos++\n\t\t\t}\n"},
 	{Name: "lex6-byte-class-arithmetic", Rule: "LEX-6", File: fLexer,
 		Old: "\treturn c >= 'A' && c <= 'Z'\n", New: "\treturn c&0x5f >= 'A' && c&0x5f <= 'Z' && c < 'a'\n"},
+	// ---- obligations added after the fourth (held-out) seeding round
+	{Name: "mat12-length-test-dropped", Rule: "MAT-12", File: fOption,
+		Old: "\t\tif len(args[idx:]) < 2 {\n\t\t\treturn false, 0, args\n\t\t}\n", New: ""},
+	{Name: "mat12-off-by-one-length-test", Rule: "MAT-12", File: fOption,
+		Old: "\t\t\tif len(args[idx+1:]) == 0 {\n", New: "\t\t\tif len(args[idx:]) == 0 {\n"},
+	{Name: "fsm7-early-leaf-verdict", Rule: "FSM-7", File: fFsm,
+		Old: "func (s *State) apply(args []string, pc matcher.ParseContext) bool {\n",
+		New: "func (s *State) apply(args []string, pc matcher.ParseContext) bool {\n\tif s.Terminal && len(s.Transitions) == 0 {\n\t\treturn len(args) == 0\n\t}\n"},
+	{Name: "cmd4-short-token-skipped", Rule: "CMD-4", File: fCmds,
+		Old: "\t\tif arg == \"--\" {\n\t\t\treturn -1\n\t\t}\n\t\tfor _, searchArg := range searchSet {",
+		New: "\t\tif arg == \"--\" {\n\t\t\treturn -1\n\t\t}\n\t\tif i > 0 && len(arg) == 2 {\n\t\t\tcontinue\n\t\t}\n\t\tfor _, searchArg := range searchSet {"},
 }
